@@ -66,6 +66,25 @@ dt_bool, dt_int, dt_float, dt_uint32, dt_complex = (z3.Const(n, DT) for n in
 result_type = z3.Function("result_type", DT, DT, DT)
 
 
+def promoted_dtype(ex, seq):
+    """numpy.result_type(*arrays) for a sequence of arrays of symbolic length: numpy's promotion of ALL their dtypes.
+    One term per sequence (keyed by the dtype of a canonical element, so a sequence and its numpy.asarray-image share it);
+    characterised only as far as needed: if every array has dtype d, the result is d."""
+    ctx = ex.ctx
+    K = z3.Int("k!promotion")
+    item = seq.item(K)
+    key = (z3.simplify(seq.n).sexpr() if isinstance(seq.n, z3.ExprRef) else str(seq.n), item.dtype.sexpr())
+    table = ex.__dict__.setdefault("promotions", {})
+    if key not in table:
+        rt = ctx.const("promoted_dtype", DT)
+        d = z3.Const(ctx.fresh("d"), DT)
+        ctx.assume(z3.ForAll([d], z3.Implies(ctx.forall_range(0, seq.n, lambda t: seq.item(t).dtype == d), rt == d)))
+        ctx.assume(z3.Implies(seq.n >= 1, z3.Implies(ctx.forall_range(0, seq.n, lambda t: seq.item(t).dtype == seq.item(0).dtype),
+                                                     rt == seq.item(z3.IntVal(0)).dtype)))
+        table[key] = rt
+    return table[key]
+
+
 def shape_axioms(ctx):
     s = z3.Const(ctx.fresh("s"), Shp)
     i = z3.Const(ctx.fresh("i"), Idx)
@@ -1162,6 +1181,24 @@ def install(reg):
             nz = (a.elem(i) != 0) if a.kind != "bool" else a.elem(i)
             return z3.Exists([i], z3.And(inshape(i, a.shape), nz))
         raise U("numpy.any of this value", node)
+
+    @ax("numpy.result_type")
+    def result_type_(ex, args, kw, node):
+        if len(args) == 1 and isinstance(args[0], V.StarSeq) and not kw:
+            probe = args[0].seq.item(z3.Int(ex.ctx.fresh("probe")))
+            if isinstance(probe, Arr):
+                out = DTypeV(promoted_dtype(ex, args[0].seq))
+                out.promotion_of = args[0].seq
+                return out
+        if len(args) == 2 and not kw:
+            ds = []
+            for a in args:
+                if isinstance(a, (Arr, Poly)):
+                    ds.append(a.dtype)
+                else:
+                    ds.append(as_dtype(ex, a, node))
+            return DTypeV(result_type(ds[0], ds[1]))
+        raise U("numpy.result_type of these values", node)
 
     @ax("numpy.outer")
     def outer(ex, args, kw, node):
